@@ -512,8 +512,10 @@ impl<W> Sha256Writer<W> {
 
 impl<W: std::io::Write> std::io::Write for Sha256Writer<W> {
     fn write(&mut self, buf: &[u8]) -> std::io::Result<usize> {
-        self.hasher.update(buf);
-        self.writer.write(buf)
+        // the inner writer may accept only a part of the buffer, the rest is offered again
+        let written = self.writer.write(buf)?;
+        self.hasher.update(&buf[..written]);
+        Ok(written)
     }
 
     fn flush(&mut self) -> std::io::Result<()> {
